@@ -142,6 +142,60 @@ func g8Calls(pkg, recv, fn string) []string {
 	return out
 }
 
+// g8TypeSwitch renders the first type switch of fn: per case the listed types and the body
+// statements (default clause: type "default"), multi-line statements collapsed.
+func g8TypeSwitch(pkg, recv, fn string) [][2]string {
+	fd := findFunc(loadPkg(pkg), recv, fn)
+	if fd == nil {
+		fatal("g8TypeSwitch: %s.%s.%s not found", pkg, recv, fn)
+	}
+	var ts *ast.TypeSwitchStmt
+	ast.Inspect(fd.Body, func(n ast.Node) bool {
+		if t, ok := n.(*ast.TypeSwitchStmt); ok && ts == nil {
+			ts = t
+			return false
+		}
+		return ts == nil
+	})
+	if ts == nil {
+		fatal("g8TypeSwitch: %s.%s has no type switch", pkg, fn)
+	}
+	var out [][2]string
+	for _, st := range ts.Body.List {
+		cc := st.(*ast.CaseClause)
+		var tys []string
+		for _, t := range cc.List {
+			tys = append(tys, g8Render(t))
+		}
+		ty := strings.Join(tys, ",")
+		if cc.List == nil {
+			ty = "default"
+		}
+		var body []string
+		for _, b := range cc.Body {
+			if ty == "default" {
+				body = append(body, "...")
+				break
+			}
+			var sb strings.Builder
+			if err := printer.Fprint(&sb, fset, b); err != nil {
+				fatal("render: %v", err)
+			}
+			body = append(body, strings.Join(strings.Fields(sb.String()), " "))
+		}
+		out = append(out, [2]string{ty, strings.Join(body, "; ")})
+	}
+	return out
+}
+
+func g8LeanPairs(xs [][2]string) string {
+	q := make([]string, len(xs))
+	for i, x := range xs {
+		q[i] = fmt.Sprintf("(%s, %s)", strconv.Quote(x[0]), strconv.Quote(x[1]))
+	}
+	return "[" + strings.Join(q, ",\n    ") + "]"
+}
+
 func g8LeanStrList(xs []string) string {
 	q := make([]string, len(xs))
 	for i, x := range xs {
@@ -184,6 +238,10 @@ func init() {
 		h.pf("def blockNoConds : List String := %s\n", g8LeanStrList(g8Conds("consensus", "HeaderValidator", "validateBlockNumber")))
 		h.pf("def prevHashConds : List String := %s\n", g8LeanStrList(g8Conds("consensus", "HeaderValidator", "validatePrevHash")))
 		h.pf("def kesComponentsConds : List String := %s\n", g8LeanStrList(g8Conds("ledger", "", "VerifyKesComponents")))
+		h.pf("/-- the era switch of ledger.ExtractKesFields: per header type, what is returned -/\n")
+		h.pf("def extractKesFields : List (String × String) :=\n    %s\n", g8LeanPairs(g8TypeSwitch("ledger", "", "ExtractKesFields")))
+		h.pf("/-- the era switch of ledger.VerifyBlock: per header type, where the leader VRF comes from -/\n")
+		h.pf("def verifyBlockVrfSwitch : List (String × String) :=\n    %s\n", g8LeanPairs(g8TypeSwitch("ledger", "", "VerifyBlock")))
 		h.pf("def buildHeader_lens : List (String × String × String) := %s\n", g8LeanTriples(g8LenChecks("consensus", "BlockBuilder", "BuildHeader")))
 		h.pf("end GV.Gen.HeaderFacts\n")
 
